@@ -77,7 +77,7 @@ class Columns(JupyterMixin):
 
         get_measurement = Measurement.get
         renderable_widths = [
-            get_measurement(console, renderable, max_width).maximum
+            get_measurement(console, renderable, max_width).maximum or 1
             for renderable in renderables
         ]
         if self.equal:
